@@ -63,7 +63,7 @@ type ExternAssume struct {
 	Info *types.Info
 }
 
-var kwRe = regexp.MustCompile(`^(func|props|variant|ghost|requires|ensures|invariant|decreases|assigns|safe|summary|alias|nonnil|extern|opt|lemma|assume|callreq|trusted)\b`)
+var kwRe = regexp.MustCompile(`^(func|props|variant|ghost|requires|ensures|invariant|decreases|assigns|safe|summary|alias|nonnil|extern|opt|lemma|assume|callreq|trusted|uninterpreted)\b`)
 var tagRe = regexp.MustCompile(`^\[([A-Za-z0-9, ]+)\]\s*`)
 var nameRe = regexp.MustCompile(`^([a-zA-Z_][a-zA-Z0-9_\-]*):\s+`)
 
@@ -128,6 +128,10 @@ func (e *Engine) loadContracts(file *ast.File) error {
 			}
 			e.contracts = append(e.contracts, cur)
 			counts = map[string]int{}
+		case "uninterpreted":
+			for _, n := range strings.Fields(d.rest) {
+				e.uninterpSpec[n] = true
+			}
 		case "extern":
 			// extern <full name> ensures <expr over r0,r1..>
 			parts := strings.SplitN(d.rest, " ensures ", 2)
@@ -796,6 +800,38 @@ func (env *SpecEnv) callExpr(x *ast.CallExpr) Value {
 		ab, ao, al := env.bytesOf(a)
 		bb, bo, bl := env.bytesOf(b)
 		return fx.bytesEq(env.st, ab, ao, al, bb, bo, bl)
+	}
+	// uninterpreted spec function: an SMT function of its arguments (slices as array, offset, length)
+	if id, ok := x.Fun.(*ast.Ident); ok && fx.eng.uninterpSpec[id.Name] {
+		var args []string
+		var sorts []string
+		for _, a := range x.Args {
+			switch v := env.eval(a).(type) {
+			case SliceVal:
+				arr := env.st.baseArr(v.Base).Arr
+				args = append(args, arr.S, v.Off.S, v.Len.S)
+				sorts = append(sorts, arr.So.String(), SBV64.String(), SBV64.String())
+			case StringVal:
+				arr := env.st.baseArr(v.Base).Arr
+				args = append(args, arr.S, v.Off.S, v.Len.S)
+				sorts = append(sorts, arr.So.String(), SBV64.String(), SBV64.String())
+			case Term:
+				args = append(args, v.S)
+				sorts = append(sorts, v.So.String())
+			default:
+				env.fail("uninterpreted spec function %s: unsupported argument", id.Name)
+			}
+		}
+		rs, ok := sortOfType(env.typeOf(x))
+		if !ok {
+			env.fail("uninterpreted spec function %s: unsupported result type", id.Name)
+		}
+		fname := "uf_" + id.Name
+		if fx.ufDecls == nil {
+			fx.ufDecls = map[string]string{}
+		}
+		fx.ufDecls[fname] = fmt.Sprintf("(declare-fun %s (%s) %s)", fname, strings.Join(sorts, " "), rs)
+		return Term{S: "(" + fname + " " + strings.Join(args, " ") + ")", So: rs}
 	}
 	// spec function of the package: inline its AST
 	if id, ok := x.Fun.(*ast.Ident); ok {
